@@ -66,7 +66,7 @@ pub fn check(id: &str, tier: &str, seed: u64) -> Option<i32> {
                 tier,
                 seed,
                 "exploration",
-                "append-only histories with strictly monotonic keys (increasing in half of the cases, decreasing in the other half - both are the documented FIFO use) on standard and blob trees: flushes of 1-5 new keys with the harness-owned virtual clock (clock_gettime interposition) advanced 0-40 s between them, then compact(Fifo(limit, ttl)) with limit drawn around the tree's own size measure disk_space() (0, half, exactly, +1, -1, minus the smallest table, twice, the stat size of the files, MAX) and ttl in {None, 0, 1 s, oldest age, half of it, beyond it, 60 s}; repeated; reopen. Oracle: no table is created; no removed table is newer than a retained one unless it had certainly exceeded the TTL (clock read before the call); nothing is removed when nothing can have exceeded the TTL (clock read after the call) and disk_space() is within the limit; every key of every retained table reads its value after every step and after reopen; len() equals the number of retained keys. Non-trivial = a FIFO call removed some tables and retained others. Distinct = hash of the case.",
+                "append-only histories with strictly monotonic keys (increasing in half of the cases, decreasing in the other half - both are the documented FIFO use) on standard and blob trees: flushes of 1-5 new keys with the harness-owned virtual clock (clock_gettime interposition) advanced 0-40 s between them, then compact(Fifo(limit, ttl)) with limit drawn around the tree's own size measure disk_space() (0, half, exactly, +1, -1, minus the smallest table, twice, the stat size of the files, MAX) and ttl in {None, 0, 1 s, oldest age, half of it, beyond it, 60 s}; repeated; reopen. Oracle: no table is created; no removed table is newer than a retained one unless it had certainly exceeded the TTL (clock read before the call); nothing is removed when nothing can have exceeded the TTL (clock read after the call) and disk_space() is within the limit; while disk_space() is within the limit every removed table must possibly have exceeded the TTL; every key of every retained table reads its value after every step and after reopen; len() equals the number of retained keys. Non-trivial = a FIFO call removed some tables and retained others. Distinct = hash of the case.",
                 &["FIFO is used as documented: new keys only, monotonic order, no other compaction (choose() asserts a disjoint idle L0)", "bounded sizes; not a proof"],
                 out,
                 json!({}),
